@@ -183,7 +183,10 @@ def _peer_test(P, t):
         return False
     if t[1].endswith('Arc::ptr_eq'):
         return any(x[0] == 'field' and x[2] == 'endpoint' for x in walk(t))
-    if t[1].endswith('::any') and 'Iterator' in t[1]:
+    is_search = t[1].endswith('::any') and 'Iterator' in t[1]
+    # per-slot form: `slot.as_ref().is_some_and(|con| Arc::ptr_eq(&con.endpoint, &other))` / `.map_or(false, |con| ..)`
+    is_slot = t[1] in ('std::option::Option::is_some_and',) or (t[1] == 'std::option::Option::map_or' and len(t[2]) == 3 and peel(t[2][1]) == ('int', 0))
+    if is_search or is_slot:
         for a in t[2][1:]:
             a = peel(a)
             if a[0] == 'agg' and str(a[1]).startswith('closure:'):
